@@ -1,0 +1,82 @@
+//go:build verif
+
+package dkg
+
+import (
+	"context"
+
+	"github.com/ipfs/go-log/v2"
+
+	"github.com/keep-network/keep-core/pkg/net"
+	"github.com/keep-network/keep-core/pkg/protocol/group"
+	"github.com/keep-network/keep-core/pkg/protocol/state"
+)
+
+// Verification hook (build tag verif, property C13): drives the existing
+// result signing, signatures verification and result submission states one
+// after another and re-exports what they computed. No protocol logic is added.
+
+func VerifC13RunPublication(
+	ctx context.Context,
+	logger log.StandardLogger,
+	self group.MemberIndex,
+	grp *group.Group,
+	membershipValidator *group.MembershipValidator,
+	sessionID string,
+	channel net.BroadcastChannel,
+	resultSigner ResultSigner,
+	resultSubmitter ResultSubmitter,
+	messages []net.Message,
+) ([]byte, map[group.MemberIndex][]byte, error, error) {
+	member := newSigningMember(logger, self, grp, membershipValidator, sessionID)
+	signingState := &resultSigningState{
+		BaseAsyncState:  state.NewBaseAsyncState(),
+		channel:         channel,
+		resultSigner:    resultSigner,
+		resultSubmitter: resultSubmitter,
+		member:          member,
+	}
+	if err := signingState.Initiate(ctx); err != nil {
+		return nil, nil, nil, err
+	}
+	for _, message := range messages {
+		if err := signingState.Receive(message); err != nil {
+			return nil, nil, nil, err
+		}
+	}
+	next, err := signingState.Next()
+	if err != nil {
+		return nil, nil, nil, err
+	}
+	verificationState := next.(*signaturesVerificationState)
+	if err := verificationState.Initiate(ctx); err != nil {
+		return nil, nil, nil, err
+	}
+	next, err = verificationState.Next()
+	if err != nil {
+		return nil, nil, nil, err
+	}
+	submissionState := next.(*resultSubmissionState)
+	submitErr := submissionState.Initiate(ctx)
+
+	return member.selfDKGResultSignature,
+		verificationState.validSignatures,
+		submitErr,
+		nil
+}
+
+func VerifC13NewMessage(
+	senderID group.MemberIndex,
+	resultHash ResultSignatureHash,
+	signature []byte,
+	publicKey []byte,
+	sessionID string,
+) net.TaggedMarshaler {
+	return &resultSignatureMessage{
+		senderID:   senderID,
+		resultHash: resultHash,
+		signature:  signature,
+		publicKey:  publicKey,
+		sessionID:  sessionID,
+	}
+}
